@@ -1010,7 +1010,15 @@ async fn hostile_inner(hseed: u64, r: &mut Rng, inst: &ServerInstance, rep: &mut
                 GarbageOutcome::Reply { status, .. } => {
                     rep.event("hostile_frame_error_reply");
                     let code = if bytes.len() >= 8 { u32::from_le_bytes(bytes[4..8].try_into().unwrap()) } else { 0 };
-                    if status == 0 && !(code == 1 || (variant == "no-permissions" && matches!(code, 1 | 10 | 22 | 39 | 41 | 42 | 43 | 44))) {
+                    // a random payload can happen to be a well-formed request (four random bytes after the get_client code are a client id):
+                    // that is not a malformed frame, and who may send it is C09's question, not this clause's
+                    let well_formed = bytes.len() >= 8
+                        && catch_unwind(AssertUnwindSafe(|| ServerCommand::from_bytes(Bytes::copy_from_slice(&bytes[4..])).map(|c| c.validate().is_ok()).unwrap_or(false))).unwrap_or(false);
+                    if well_formed {
+                        let _ = take_server_panics();
+                        rep.event("hostile_frame_was_a_well_formed_request(not judged)");
+                    }
+                    if status == 0 && !well_formed && !(code == 1 || (variant == "no-permissions" && matches!(code, 1 | 10 | 22 | 39 | 41 | 42 | 43 | 44))) {
                         // an OK answer to something that is not a harmless request of this connection's own
                         let after = timed("get_streams", good.get_streams()).await?.map_err(|e| Stop::Inconclusive(e.to_string()))?;
                         let u = timed("get_users", good.get_users()).await?.map_err(|e| Stop::Inconclusive(e.to_string()))?;
